@@ -91,6 +91,15 @@ def getN (m : List (String × Nat)) (k : String) : Nat := ((m.find? (·.1 == k))
 def addN (m : List (String × Nat)) (k : String) (d : Nat) : List (String × Nat) :=
   (m.filter (·.1 != k)) ++ [(k, getN m k + d)]
 
+/-- the events of a delivery action: `deliver kind name`, or `burst g kind:name,kind:name,…` (handed in back to back
+from `g` goroutines without waiting in between) -/
+def opEvents (op : List String) : Option (List (String × String)) :=
+  match op with
+  | ["deliver", kind, name] => some [(kind, name)]
+  | ["burst", _, evs] =>
+    (commaList evs).mapM (fun e => match e.splitOn ":" with | [k, n] => some (k, n) | _ => none)
+  | _ => none
+
 /-- the C11 predicate on the implementation's history -/
 def judgeSpec (p : Proc) (x : Extra) (ops : List (List String × List String)) : List String × Bool := Id.run do
   let catches := x.consumers.filter (fun n => ((p.node? n).map (·.kind == .catch_)).getD false)
@@ -115,36 +124,38 @@ def judgeSpec (p : Proc) (x : Extra) (ops : List (List String × List String)) :
     let visitsNow (n : String) : Nat := (obs.filter (fun o => words o == ["visit", n])).length
     let firesNow (n : String) : Nat := count canon s!"fire {n}"
     let inflightMatches (n : String) : Bool := inflight.any (fun e => evMatches n e.1 e.2)
-    match op with
-    | ["deliver", kind, name] =>
+    match opEvents op with
+    | some evs =>
+      let what := " ".intercalate op
       let blocked := canon.contains "ret blocked"
+      let upTo := issued + evs.length - 1
       if blocked then
         interesting := true
         let sig :=
           if !started then
-            (if issued ≥ facts.start.cap 0 then "deliver_blocks_unstarted_instance" else "deliver_blocks_early")
-          else if catches.any (fun n => getN visits n == 0 && issued ≥ facts.catch_.cap (incoming n)) then
+            (if upTo ≥ facts.start.cap 0 then "deliver_blocks_unstarted_instance" else "deliver_blocks_early")
+          else if catches.any (fun n => getN visits n == 0 && upTo ≥ facts.catch_.cap (incoming n)) then
             "deliver_blocks_unreached_inbox"
-          else if wedged.any (fun (n, k) => issued ≥ k + facts.catch_.cap (incoming n) + 1) then
+          else if wedged.any (fun (n, k) => upTo ≥ k + facts.catch_.cap (incoming n) + 1) then
             "deliver_blocks_reader_stuck_on_withdrawn_token"
           else "deliver_blocks_unexplained"
-        specs := s!"{sig}: delivery {issued + 1} ({kind} {name}) did not return within the deadline" :: specs
+        specs := s!"{sig}: delivery {issued + 1} ({what}) did not return within the deadline" :: specs
       for n in catches do
         let w := getN visits n - getN fires n
         let k := firesNow n
-        let m := evMatches n kind name
+        let m := evs.any (fun e => evMatches n e.1 e.2)
         if k > 0 then interesting := true
         if k > w then
-          specs := s!"listener_continued_twice: {n} released {k} tokens on {kind} {name} with {w} waiting" :: specs
+          specs := s!"listener_continued_twice: {n} released {k} tokens on `{what}` with {w} waiting" :: specs
         else if m && w > 0 && k < w && !blocked then
-          specs := s!"listener_missed_event: {n} had {w} tokens waiting for {kind} {name}, {k} continued" :: specs
+          specs := s!"listener_missed_event: {n} had {w} tokens waiting during `{what}`, {k} continued" :: specs
         else if !m && k > 0 && !inflightMatches n then
-          specs := s!"nonmatching_listener_reacted: {n} continued on {kind} {name}" :: specs
+          specs := s!"nonmatching_listener_reacted: {n} continued on `{what}`" :: specs
       for n in withdrawn do
-        if evMatches n kind name && !(wedged.any (·.1 == n)) then wedged := wedged ++ [(n, issued)]
-      if blocked then inflight := inflight ++ [(kind, name)]
-      issued := issued + 1
-    | _ =>
+        if evs.any (fun e => evMatches n e.1 e.2) && !(wedged.any (·.1 == n)) then wedged := wedged ++ [(n, issued)]
+      if blocked then inflight := inflight ++ evs
+      issued := issued + evs.length
+    | none =>
       if op == ["startall"] then started := true
       for n in catches do
         if firesNow n > 0 && !inflightMatches n then
@@ -217,6 +228,23 @@ def check (_params : List String) (lines : List String) : CaseResult := Id.run d
       let (s', b) := deliverEv cfg facts p st e
       st := s'
       ret := some b
+    | "burst" :: _ =>
+      -- a delivery to a node whose reader runs waits until it is accepted, it is never dropped: a burst comes to
+      -- the same as the deliveries one after the other
+      match opEvents op with
+      | none => st := st.fail ("malformed burst " ++ " ".intercalate op)
+      | some evs =>
+        let mut acc : List CObs := []
+        let mut all := true
+        for (kind, name) in evs do
+          let (t, e) := evIndex tbl kind name
+          tbl := t
+          let (s', b) := deliverEv cfg facts p st e
+          acc := acc ++ s'.obs
+          all := all && b
+          st := s'
+        st := { st with obs := acc }
+        ret := some all
     | _ =>
       match parseAnswer op with
       | some (n, occ, a) => st := answer cfg facts p st n occ a
